@@ -29,8 +29,17 @@ class Gen:
                 parts.append(self.word(anc))
             elif k < 0.55:
                 parts.append("''" + self.inline(anc + ["Emphasized"], depth + 2) + "''")
-            elif k < 0.65:
+            elif k < 0.62:
                 parts.append("'''" + self.inline(anc + ["Strong"], depth + 2) + "'''")
+            elif k < 0.65 and depth == 0:
+                # one italic span holding several bold spans (the apostrophe resolver keeps many open alternatives)
+                n_bold = r.randint(2, 8)
+                a2 = anc + ["Emphasized"]
+                seg = [self.word(a2)]
+                for _ in range(n_bold):
+                    seg.append("'''" + self.word(a2 + ["Strong"]) + "'''")
+                    seg.append(self.word(a2))
+                parts.append("''" + " ".join(seg) + "''")
             elif k < 0.72:
                 parts.append("<b>" + self.inline(anc + ["Strong"], depth + 2) + "</b>")
             elif k < 0.78:
@@ -68,8 +77,10 @@ class Gen:
         rows = self.rnd.randint(2, 3)
         cols = self.rnd.randint(2, 3)
         out = "{|\n"
+        implicit_first_row = self.rnd.random() < 0.3      # the first row needs no leading |-
         for r in range(rows):
-            out += "|-\n"
+            if r or not implicit_first_row:
+                out += "|-\n"
             for c in range(cols):
                 hdr = r == 0 and self.rnd.random() < 0.5
                 a = anc + ["Table", "Row", "Cell"]
@@ -152,6 +163,23 @@ def document(seed, size=12):
 def documents(tier, seed):
     n = 150 if tier == "quick" else 1500
     return [document(seed * 100003 + i, 6 + i % 10)[0] for i in range(n)]
+
+
+STYLES = ("Emphasized", "Strong")
+
+
+def canon(anc):
+    """bold-inside-italic and italic-inside-bold denote the same styles: runs of adjacent style ancestors are sorted"""
+    out, run = [], []
+    for a in list(anc) + [None]:
+        if a in STYLES:
+            run.append(a)
+        else:
+            out.extend(sorted(set(run)))
+            run = []
+            if a is not None:
+                out.append(a)
+    return tuple(out)
 
 
 def tree_words(tree):
